@@ -36,6 +36,7 @@
    tasks; WHEN hyper/tokio drop a future after the peer went away (the model has the step, not its timing);
    the body of the RPC handling (Handler only counts invocations). *)
 From Coq Require Import List NArith Bool.
+From JV Require Import Gen.ConnGuardGen.
 Import ListNotations.
 Local Open Scope N_scope.
 
@@ -70,8 +71,10 @@ Inductive act :=
 | WsEnd (i : nat)              (* background_task's loop breaks: peer closed / reset, protocol error, server stopped *)
 | WsFinish (i : nat).          (* graceful_shutdown returned; drop(conn) *)
 
-Definition status_refused : N := 429.
-Definition status_denied : N := 403.
+(* status constants are read from transport/http.rs on every run (Gen/ConnGuardGen.v) *)
+Definition status_refused : N := gen_status_refused.
+Definition status_denied : N := gen_status_denied.
+Definition status_switching : N := 101.   (* soketto's receive_request: SWITCHING_PROTOCOLS *)
 
 Fixpoint upd (l : list attempt) (i : nat) (f : attempt -> attempt) : list attempt :=
   match l, i with
@@ -96,7 +99,7 @@ Definition keep (s : state) (i : nat) (f : attempt -> attempt) : state :=
 Definition release (s : state) (i : nat) (f : attempt -> attempt) : state :=
   {| s_cfg := s_cfg s; s_avail := s_avail s + 1; s_att := upd (s_att s) i f |}.
 
-Definition http_status (k : kind) : N := match k with KHttp => 200 | _ => 405 end.
+Definition http_status (k : kind) : N := match k with KHttp => gen_status_ok | _ => gen_status_not_post end.
 
 Definition step (s : state) (a : act) : state :=
   match a with
@@ -113,8 +116,8 @@ Definition step (s : state) (a : act) : state :=
           | PCall =>
               if c_ws (s_cfg s) && is_upgrade (a_kind x) then
                 match a_kind x with
-                | KWs => keep s i (set_phase_status PWsPending 101)
-                | _ => release s i (set_phase_status PDone 200)
+                | KWs => keep s i (set_phase_status PWsPending status_switching)
+                | _ => release s i (set_phase_status PDone gen_status_handshake_failed)
                 end
               else if c_http (s_cfg s) && negb (is_upgrade (a_kind x)) then keep s i (set_phase PHttp)
               else release s i (set_phase_status PDone status_denied)
@@ -203,6 +206,7 @@ Inductive sstep :=
 | SHAbort (i : nat)     (* TCP stream dropped while the request is in flight *)
 | SHRelAbort (i : nat)  (* handler let go and the stream dropped at once *)
 | SHGet (i : nat)       (* a complete GET: answered without a handler *)
+| SHBurst (i k : nat)   (* k POSTs (attempts i .. i+k-1) written back to back on k streams, the 429 answers counted, then all reset *)
 | SWOpen (i : nat)      (* good upgrade request, 101 read *)
 | SWBad (i : nat)       (* upgrade request with a bad Sec-WebSocket-Version *)
 | SWEarly (i : nat)     (* good upgrade request, stream reset as soon as `call` has run, response not read *)
@@ -212,6 +216,13 @@ Inductive sstep :=
 | SWAbort (i : nat)     (* stream dropped without close frame *)
 | SWGarbage (i : nat)   (* invalid frame: the server ends the session *)
 | SWCloseAbort (i : nat). (* close frame, then the stream dropped without waiting *)
+
+Fixpoint burst_open (i k : nat) : list act :=
+  match k with O => [] | S k' => Acquire KHttp :: Dispatch i :: burst_open (S i) k' end.
+Fixpoint burst_drop (i k : nat) : list act :=
+  match k with O => [] | S k' => DropFut i :: burst_drop (S i) k' end.
+Fixpoint count_refused (s : state) (i k : nat) : N :=
+  match k with O => 0 | S k' => (if refused s i then 1 else 0) + count_refused s (S i) k' end.
 
 Definition kind_of (s : state) (i : nat) : option kind :=
   match get s i with Some a => Some (a_kind a) | None => None end.
@@ -226,6 +237,7 @@ Definition script_acts (s : state) (x : sstep) : list act :=
   | SHAbort i => [DropFut i]
   | SHRelAbort i => if handlers_of s i =? 0 then [DropFut i] else [Respond i]
   | SHGet i => [Acquire KHttpGet; Dispatch i; Respond i]
+  | SHBurst i k => burst_open i k ++ burst_drop i k
   | SWOpen i => [Acquire KWs; Dispatch i; Upgrade i true]
   | SWBad i => [Acquire KWsBad; Dispatch i]
   | SWEarly i => [Acquire KWs; Dispatch i; Upgrade i false]
@@ -244,6 +256,7 @@ Definition script_status (before after : state) (x : sstep) : N :=
       | Some a => match a_phase a with PHttp => match get after i with Some b => a_status b | None => 0 end | _ => 0 end
       | None => 0
       end
+  | SHBurst i k => 1000 + count_refused after i k   (* printed as b<count> *)
   | _ => 0
   end.
 
